@@ -27,7 +27,7 @@ RULE = ('cases = (table, key, reverse) for sort, (tables, key, reverse, header, 
 ASSUMPTIONS = ['CPython list.sort is stable (also with reverse=True)',
                'the reference ordering model in petlmon/util.py follows the text of C04',
                'pickle round-trips the generated cell values']
-REQUIRED = ['long-table-sorts', 'chunked:more-than-16-chunks+ties', 'chunked:buffersize==nrows', 'chunked:buffersize==nrows-1', 'inmemory:buffersize==nrows+1', 'chunked:buffersize==1',
+REQUIRED = ['sort:pass-after-a-failed-pass', 'sort:iterator-open-across-clearcache', 'long-table-sorts', 'chunked:more-than-16-chunks+ties', 'chunked:buffersize==nrows', 'chunked:buffersize==nrows-1', 'inmemory:buffersize==nrows+1', 'chunked:buffersize==1',
             'chunked:reverse+ties-across-chunks', 'pass2:file-cache', 'pass2:mem-cache', 'key-cell-missing',
             'mergesort:tie-across-tables', 'mergesort:presorted', 'config.sort_buffersize-used']
 EXHAUSTIVE = {'quick': False, 'thorough': False}
@@ -216,6 +216,38 @@ def _judge_sort(case, ctx):
                 del view
         if len(out) > 3:
             break
+    # ---- the same sequence also after a pass that failed, and for a pass that was open while the cache was cleared
+    if not out and n >= 2:
+        from petlmon import probes as _pr
+        for bs in sorted({1, max(1, n // 2), n + 1}):
+            for fail_at in sorted({2, n}):
+                fsrc = _pr.FailingSource(copy.deepcopy(table), fail_at=fail_at, only_pass=1)
+                view = petl.sort(fsrc, key, reverse=reverse, buffersize=bs)
+                try:
+                    for _ in iter(view):
+                        pass
+                except _pr.InjectedFault:
+                    ctx.seen('sort:pass-after-a-failed-pass')
+                got = util.attempt_rows(lambda: view)
+                if isinstance(got, util.Raised) or util.crows(got) != cexp:
+                    out.append({'kind': 'sort-output-differs', 'buffersize': bs, 'after': 'a pass in which the source failed at row %d' % fail_at,
+                                'expected': exp, 'observed': got if not isinstance(got, util.Raised) else repr(got)})
+                    break
+                del view
+            if out:
+                break
+            view = petl.sort(copy.deepcopy(table), key, reverse=reverse, buffersize=bs)
+            first = util.attempt_rows(lambda: view)            # fills the cache
+            it = iter(view)
+            part = [tuple(next(it)) for _ in range(2)]
+            view.clearcache()
+            got = util.attempt_rows(lambda: part + [tuple(r) for r in it])
+            ctx.seen('sort:iterator-open-across-clearcache')
+            if isinstance(first, util.Raised) or isinstance(got, util.Raised) or util.crows(got) != cexp:
+                out.append({'kind': 'sort-output-differs', 'buffersize': bs, 'after': 'clearcache() while this iterator was open',
+                            'expected': exp, 'observed': got if not isinstance(got, util.Raised) else repr(got)})
+                break
+            del view, it
     if _audit.live() or _audit.listing():
         # not C05's verdict (C18 owns it) but never let files pile up silently
         ctx.seen('tempfiles-left-after-case', len(_audit.listing()))
